@@ -26,7 +26,7 @@ theorem C10_exec (i : Instr) (len : UInt16) (a : Arch) : exec (swapI i) len a.sw
 
 /-- exchanging twice is the identity, so this reads: FD form in the exchanged state, exchanged again
     = DD form -/
-theorem C10_exec' (i : Instr) (len : UInt16) (a : Arch) : (exec (swapI i) len a.swapXY).swapXY = exec i len a := by
+theorem C10_exec_back (i : Instr) (len : UInt16) (a : Arch) : (exec (swapI i) len a.swapXY).swapXY = exec i len a := by
   rw [exec_swap]; rfl
 
 /-- the reported T-states agree: both pages read the same table row, and the conditional
